@@ -17,6 +17,7 @@ use swiftness_stark::types::StarkProof;
 pub struct EditSpec {
     /// 0 truncate, 1 empty, 2 shift (drop first), 3 extend, 4 delete at, 5 scalar extreme,
     /// 6 scalar := a length-derived value, 7 toggle dynamic params, 8 consistent re-declaration,
+    /// 11 a committed table re-declared as single-column with its rows replaced by their leaf hashes,
     /// 10 a continuous-page header appended (zero / one / PRF product, small / extreme size),
     /// 9 one structural dynamic parameter (uses_*, *_row_ratio, num_columns_*, cpu_component_step) set to a small/extreme value
     pub kind: u8,
@@ -190,7 +191,30 @@ pub fn apply_script(img: &mut Value, edits: &[EditSpec], dyn_params: Option<&Val
     for (ei, e) in edits.iter().enumerate() {
         let (slots, vecs) = enumerate(img);
         let es = mix(seed, ei as u64);
-        match e.kind % 11 {
+        match e.kind % 12 {
+            11 => {
+                // a table re-declared as single-column: each row's cells are replaced by the one value whose
+                // Montgomery form is the row's leaf hash, so the Merkle opening still verifies
+                use crate::refmodel::merkle::{build_hash, montgomery_r, row_leaf};
+                let which = ["/config/composition", "/config/traces/original", "/config/traces/interaction"][(e.val % 3) as usize];
+                let wit = ["/witness/composition_decommitment/values", "/witness/traces_decommitment/original/values", "/witness/traces_decommitment/interaction/values"][(e.val % 3) as usize];
+                let hexv = |v: &Value| v.as_str().and_then(|s| Felt::from_hex(s).ok());
+                let cols = img.pointer(&format!("{}/n_columns", which)).and_then(hexv).map(|f| big(&f).iter_u64_digits().next().unwrap_or(0) as usize).unwrap_or(0);
+                let h = img.pointer(&format!("{}/vector/height", which)).and_then(hexv).map(|f| big(&f).iter_u64_digits().next().unwrap_or(0)).unwrap_or(0);
+                let nvf = img.pointer(&format!("{}/vector/n_verifier_friendly_commitment_layers", which)).and_then(hexv).map(|f| big(&f).iter_u64_digits().next().unwrap_or(0)).unwrap_or(0);
+                let vals: Vec<Felt> = img.pointer(wit).and_then(|v| v.as_array()).map(|a| a.iter().filter_map(hexv).collect()).unwrap_or_default();
+                if cols >= 2 && cols <= 128 && vals.len() % cols == 0 && !vals.is_empty() {
+                    let rinv = inv(montgomery_r());
+                    let collapsed: Vec<Value> = vals.chunks(cols).map(|row| Value::String(felt_str(&(row_leaf(build_hash(), nvf, h, row) * rinv)))).collect();
+                    if let Some(slot) = img.pointer_mut(wit) {
+                        *slot = Value::Array(collapsed);
+                    }
+                    if let Some(slot) = img.pointer_mut(&format!("{}/n_columns", which)) {
+                        *slot = Value::String("0x1".into());
+                    }
+                    applied.push(format!("collapse_to_single_column:{}", which));
+                }
+            }
             10 => {
                 // a continuous-page header (the shipped proofs have none): prover-supplied product / size
                 let hdr = json!({
@@ -230,7 +254,7 @@ pub fn apply_script(img: &mut Value, edits: &[EditSpec], dyn_params: Option<&Val
                     continue;
                 }
                 let v = &vecs[pick(e.target, vecs.len())];
-                let edit = match e.kind % 11 {
+                let edit = match e.kind % 12 {
                     0 => {
                         let len = match e.val % 4 {
                             0 => 0,
@@ -254,7 +278,7 @@ pub fn apply_script(img: &mut Value, edits: &[EditSpec], dyn_params: Option<&Val
                     continue;
                 }
                 let s = &slots[pick(e.target, slots.len())];
-                let val = if e.kind % 11 == 5 {
+                let val = if e.kind % 12 == 5 {
                     match s.kind {
                         SlotKind::Felt => felt_str(&extreme_felt(e.val)),
                         SlotKind::U8 => (extreme_u64(e.val) & 0xff).to_string(),
@@ -388,7 +412,7 @@ pub fn check(env: &Env, c: &Case) -> Outcome {
 
 pub fn strategy() -> impl Strategy<Value = Case> {
     let edit = (
-        prop_oneof![2 => 0u8..5, 3 => 5u8..7, 1 => Just(7u8), 3 => Just(8u8), 2 => Just(9u8), 1 => Just(10u8)],
+        prop_oneof![2 => 0u8..5, 3 => 5u8..7, 1 => Just(7u8), 3 => Just(8u8), 2 => Just(9u8), 1 => Just(10u8), 1 => Just(11u8)],
         any::<u16>(),
         any::<u8>(),
         any::<u8>(),
